@@ -142,8 +142,10 @@ func (sc *SearchCache) generateCacheKey(query string, options SearchOptions) str
 	// Serialize to JSON for consistent key generation
 	jsonData, err := json.Marshal(keyData)
 	if err != nil {
-		// Fallback to simple key if JSON marshaling fails
-		return fmt.Sprintf("%s%s:%d", sc.keyPrefix, normalizedQuery, options.Limit)
+		// JSON cannot render NaN / Inf boosts. The fallback key must still cover every
+		// option (fmt prints maps in sorted key order), or requests differing in them
+		// would share one entry.
+		return fmt.Sprintf("%s%s:%+v", sc.keyPrefix, normalizedQuery, options)
 	}
 
 	// Generate SHA256 hash for compact key (more secure than MD5)
